@@ -977,6 +977,8 @@ func runCase(in caseInput) (res runResult) {
 	// ground truth of the generator
 	var signedNow []int // cast indices that signed (or whose independent signature was injected) since the content was last set
 	curPayload := 0
+	histPath := tmpFile() // the one path every Dump of this history writes to
+	defer os.Remove(histPath)
 	dirty := false      // an adversarial edit happened since the content was last set by SetPayload
 	distinctSigners := map[string]bool{}
 	maxSigners := 0
@@ -1096,23 +1098,59 @@ func runCase(in caseInput) (res runResult) {
 			oracleSteps[len(oracleSteps)-1] = want + oracleSteps[len(oracleSteps)-1][1:]
 			continue
 		case "dumpload":
-			// the real thing: Dump to a file and LoadMetadata it
-			p := tmpFile()
+			// the real thing: Dump to THE file of this history (every Dump of a history rewrites the
+			// same path, as in-toto-sign / in-toto-record do) and LoadMetadata it.  What was dumped is
+			// what must be loaded, whatever the path held before.
+			switch op.Mut {
+			case "":
+			case "over-long", "over-short", "over-same":
+				// the path first receives ANOTHER metadata object, dumped by the library
+				other := v
+				other.Sigs = append([]sigEntry{}, v.Sigs...)
+				switch op.Mut {
+				case "over-long": // three times the signatures and then some
+					for k := 0; k < 3; k++ {
+						other.Sigs = append(other.Sigs, v.Sigs...)
+					}
+					other.Sigs = append(other.Sigs, sigEntry{KeyID: strings.Repeat("ab", 32), Sig: encodeSig(w, bytes.Repeat([]byte{7}, 384))})
+				case "over-short": // no signatures at all
+					other.Sigs = nil
+				case "over-same": // same length, one signature differs in its last digit
+					if n := len(other.Sigs); n > 0 && len(other.Sigs[n-1].KeyID) > 0 {
+						id := other.Sigs[n-1].KeyID
+						c := byte('0')
+						if id[len(id)-1] == '0' {
+							c = '1'
+						}
+						other.Sigs[n-1].KeyID = id[:len(id)-1] + string(c)
+					}
+				}
+				if omd, oerr := other.load(); oerr == nil {
+					if derr := omd.Dump(histPath); derr != nil {
+						res.Notes = append(res.Notes, "dump of the other object failed: "+derr.Error())
+					}
+				} else {
+					res.Notes = append(res.Notes, "other object unloadable: "+oerr.Error())
+				}
+			default:
+				panic("unknown dumpload variant " + op.Mut)
+			}
 			var nmd intoto.Metadata
 			before := canonOfValue(md.GetPayload())
-			lerr := md.Dump(p)
+			lerr := md.Dump(histPath)
 			if lerr == nil {
-				nmd, lerr = intoto.LoadMetadata(p)
+				nmd, lerr = intoto.LoadMetadata(histPath)
 			}
-			os.Remove(p)
 			if before != nil { // content that has a canonical form must keep it
 				rtSteps++
 			}
 			if lerr != nil {
 				st = "F"
+				res.Notes = append(res.Notes, "Dump;LoadMetadata failed: "+lerr.Error())
 			} else {
 				md = nmd
-				if before != nil && bytes.Equal(before, canonOfValue(md.GetPayload())) {
+				nv, nerr := viewOf(md)
+				if before != nil && bytes.Equal(before, canonOfValue(md.GetPayload())) && nerr == nil && sameView(v, nv) {
 					rtEqual++
 				}
 			}
@@ -1660,7 +1698,7 @@ func randomCase(r *lib.Rng, maxLen int) (caseInput, string) {
 		case x < 45 || i == 0:
 			in.Ops = append(in.Ops, opSpec{Kind: "sign", Key: signerIdx()})
 		case x < 60:
-			in.Ops = append(in.Ops, opSpec{Kind: "dumpload"})
+			in.Ops = append(in.Ops, opSpec{Kind: "dumpload", Mut: []string{"", "", "", "over-long", "over-short", "over-same"}[r.Intn(6)]})
 		case x < 67:
 			if bad >= 0 && r.Chance(1, 4) {
 				in.Ops = append(in.Ops, opSpec{Kind: "setpayload", Payload: bad})
@@ -1891,6 +1929,34 @@ func systematic(r *lib.Rng, all bool) []struct {
 				})
 			})
 		}
+		// one path, rewritten: what was signed and dumped is what is loaded and verifies, whatever
+		// the path held before (longer / shorter / same length; load, add a signature, dump in place)
+		if _, ok := pool["rsa2048"]; ok {
+			names := []string{"rsa2048", "ed1", "ecdsa256"}
+			for _, kind := range []string{"link", "layout"} {
+				emit(w, kind, "rewrite-long-then-short", names, func(in *caseInput) {
+					// rsa + ed25519 signatures dumped, then a new object with one ed25519 signature
+					in.Ops = []opSpec{{Kind: "sign", Key: 0}, {Kind: "sign", Key: 1}, {Kind: "dumpload"}, {Kind: "setpayload", Payload: 1},
+						{Kind: "sign", Key: 1}, {Kind: "dumpload"}}
+				})
+				emit(w, kind, "rewrite-short-then-long", names, func(in *caseInput) {
+					in.Ops = []opSpec{{Kind: "sign", Key: 1}, {Kind: "dumpload"}, {Kind: "sign", Key: 0}, {Kind: "dumpload"}}
+				})
+				emit(w, kind, "rewrite-sign-in-place", names, func(in *caseInput) {
+					in.Ops = []opSpec{{Kind: "sign", Key: 1}, {Kind: "dumpload"}, {Kind: "sign", Key: 0}, {Kind: "dumpload"},
+						{Kind: "dumpload"}, {Kind: "sign", Key: 1}, {Kind: "dumpload"}}
+				})
+			}
+			for _, m := range []string{"over-long", "over-short", "over-same"} {
+				m := m
+				emit(w, "link", "rewrite-"+m, names, func(in *caseInput) {
+					in.Ops = []opSpec{{Kind: "sign", Key: 1}, {Kind: "sign", Key: 0}, {Kind: "dumpload", Mut: m}, {Kind: "sign", Key: 1}, {Kind: "dumpload", Mut: m}}
+				})
+				emit(w, "layout", "rewrite-"+m, []string{"ed2", "ecdsa384", "ed1"}, func(in *caseInput) {
+					in.Ops = []opSpec{{Kind: "sign", Key: 0}, {Kind: "dumpload", Mut: m}, {Kind: "sign", Key: 1}, {Kind: "dumpload", Mut: m}}
+				})
+			}
+		}
 		// content changed IN MEMORY on the object that has just been verified (no Load / Sign in
 		// between): verify; mutate; verify - and: verify; mutate; sign other; verify both.
 		// Metablock: the exported field Signed is assigned / edited in place; Envelope: SetPayload.
@@ -1964,7 +2030,7 @@ func writeKeys(path string) {
 func interopText(valid, made, envEq, envSteps, rtEq, rtSteps, failSame, failOps int) string {
 	return fmt.Sprintf("signatures made by the library that verify with crypto/* directly over the prescribed bytes: %d of %d; "+
 		"envelope steps at which GetPayload() is the content of the signed payload bytes: %d of %d; "+
-		"Dump;LoadMetadata operations that left the content unchanged: %d of %d; "+
+		"Dump;LoadMetadata operations (all on one path) that gave back the content and the signature list that were dumped: %d of %d; "+
 		"failed Sign / SetPayload operations that left the object unchanged: %d of %d", valid, made, envEq, envSteps, rtEq, rtSteps, failSame, failOps)
 }
 func (r runResult) interopImpl() string {
